@@ -29,7 +29,7 @@ Enables access to the Crazyflie memory subsystem.
 import errno
 import logging
 import struct
-from threading import Lock
+from threading import RLock
 
 from .deck_memory import DeckMemoryManager
 from .i2c_element import I2CElement
@@ -249,7 +249,9 @@ class Memory():
         self.cf = crazyflie
         self.cf.add_port_callback(CRTPPort.MEM, self._new_packet_cb)
         self.cf.disconnected.add_callback(self._disconnected)
-        self._write_requests_lock = Lock()
+        # Reentrant: a link error reported while a chunk is being sent (lock held) ends up in
+        # _disconnected() in the same thread, which takes the lock again
+        self._write_requests_lock = RLock()
 
         self._clear_state()
 
@@ -323,25 +325,22 @@ class Memory():
 
     def write(self, memory, addr, data, flush_queue=False, progress_cb=None):
         """Write the specified data to the given memory at the given address"""
-        if self.cf.link is None:
-            # Nothing can be sent, a queued request would stay pending forever
-            logger.warning('Can not write to memory id {}, no link is open'.format(memory.id))
-            return False
-
         wreq = _WriteRequest(memory, addr, data, self.cf, progress_cb)
-        if memory.id not in self._write_requests:
-            self._write_requests[memory.id] = []
 
         # Workaround until we secure the uplink and change messages for
         # mems to non-blocking
-        self._write_requests_lock.acquire()
-        if flush_queue:
-            self._write_requests[memory.id] = self._write_requests[
-                memory.id][:1]
-        self._write_requests[memory.id].append(wreq)
-        if len(self._write_requests[memory.id]) == 1:
-            wreq.start()
-        self._write_requests_lock.release()
+        with self._write_requests_lock:
+            if self.cf.link is None:
+                # Nothing can be sent, a queued request would stay pending forever
+                logger.warning('Can not write to memory id {}, no link is open'.format(memory.id))
+                return False
+
+            requests = self._write_requests.setdefault(memory.id, [])
+            if flush_queue:
+                del requests[1:]
+            requests.append(wreq)
+            if len(requests) == 1:
+                wreq.start()
 
         return True
 
@@ -349,19 +348,21 @@ class Memory():
         """
         Read the specified amount of bytes from the given memory at the given address
         """
-        if self.cf.link is None:
-            # Nothing can be sent, the request would stay pending forever and block later reads
-            logger.warning('Can not read from memory id {}, no link is open'.format(memory.id))
-            return False
+        # The lock also protects the read requests from a disconnect in another thread
+        with self._write_requests_lock:
+            if self.cf.link is None:
+                # Nothing can be sent, the request would stay pending forever and block later reads
+                logger.warning('Can not read from memory id {}, no link is open'.format(memory.id))
+                return False
 
-        if memory.id in self._read_requests:
-            logger.warning('There is already a read operation ongoing for memory id {}'.format(memory.id))
-            return False
+            if memory.id in self._read_requests:
+                logger.warning('There is already a read operation ongoing for memory id {}'.format(memory.id))
+                return False
 
-        rreq = _ReadRequest(memory, addr, length, self.cf)
-        self._read_requests[memory.id] = rreq
+            rreq = _ReadRequest(memory, addr, length, self.cf)
+            self._read_requests[memory.id] = rreq
 
-        rreq.start()
+            rreq.start()
 
         return True
 
@@ -394,19 +395,19 @@ class Memory():
         self._clear_state()
 
     def _call_all_failed_callbacks(self):
-        # Read requests
-        read_requests = list(self._read_requests.values())
-        self._read_requests.clear()
+        with self._write_requests_lock:
+            # Read requests
+            read_requests = list(self._read_requests.values())
+            self._read_requests.clear()
+
+            # Write requests
+            write_requests = []
+            for requests in self._write_requests.values():
+                write_requests += requests
+            self._write_requests.clear()
+
         for rreq in read_requests:
             self.mem_read_failed_cb.call(rreq.mem, rreq.addr, rreq.data)
-
-        # Write requests
-        write_requests = []
-        self._write_requests_lock.acquire()
-        for requests in self._write_requests.values():
-            write_requests += requests
-        self._write_requests.clear()
-        self._write_requests_lock.release()
 
         for wreq in write_requests:
             self.mem_write_failed_cb.call(wreq.mem, wreq.addr)
@@ -574,59 +575,69 @@ class Memory():
         id = cmd
         (addr, status) = struct.unpack('<IB', payload[0:5])
         logger.debug('WRITE: Mem={}, addr=0x{:X}, status=0x{}'.format(id, addr, status))
-        # Find the write request
-        if id in self._write_requests:
-            self._write_requests_lock.acquire()
-            do_call_sucess_cb = False
-            do_call_fail_cb = False
-            if len(self._write_requests[id]) == 0:
+        do_call_sucess_cb = False
+        do_call_fail_cb = False
+        # The callers are replaced if the link goes down while the next chunk is sent
+        mem_write_cb = self.mem_write_cb
+        mem_write_failed_cb = self.mem_write_failed_cb
+        with self._write_requests_lock:
+            # Find the write request
+            requests = self._write_requests.get(id)
+            if not requests:
                 # No write is ongoing for this memory, this is a duplicated or late reply
-                self._write_requests_lock.release()
                 return
-            wreq = self._write_requests[id][0]
+            wreq = requests[0]
             if status == 0:
                 if wreq.write_done(addr):
-                    # self._write_requests.pop(id, None)
                     # Remove the first item
-                    self._write_requests[id].pop(0)
+                    requests.pop(0)
                     do_call_sucess_cb = True
 
                     # Get a new one to start (if there are any)
-                    if len(self._write_requests[id]) > 0:
-                        self._write_requests[id][0].start()
+                    if len(requests) > 0:
+                        requests[0].start()
             else:
                 logger.debug('Status {}: write failed.'.format(status))
                 # Remove from queue
-                self._write_requests[id].pop(0)
+                requests.pop(0)
                 do_call_fail_cb = True
 
                 # Get a new one to start (if there are any)
-                if len(self._write_requests[id]) > 0:
-                    self._write_requests[id][0].start()
+                if len(requests) > 0:
+                    requests[0].start()
 
-            self._write_requests_lock.release()
-
-            # Call callbacks after the lock has been released to alow for new writes
-            # to be initiated from the callback.
-            if do_call_sucess_cb:
-                self.mem_write_cb.call(wreq.mem, wreq.addr)
-            if do_call_fail_cb:
-                self.mem_write_failed_cb.call(wreq.mem, wreq.addr)
+        # Call callbacks after the lock has been released to alow for new writes
+        # to be initiated from the callback.
+        if do_call_sucess_cb:
+            mem_write_cb.call(wreq.mem, wreq.addr)
+        if do_call_fail_cb:
+            mem_write_failed_cb.call(wreq.mem, wreq.addr)
 
     def _handle_chan_read(self, cmd, payload):
         id = cmd
         (addr, status) = struct.unpack('<IB', payload[0:5])
         data = struct.unpack('B' * len(payload[5:]), payload[5:])
         logger.debug('READ: Mem={}, addr=0x{:X}, status=0x{}, data={}'.format(id, addr, status, data))
-        # Find the read request
-        if id in self._read_requests:
+        do_call_sucess_cb = False
+        do_call_fail_cb = False
+        mem_read_cb = self.mem_read_cb
+        mem_read_failed_cb = self.mem_read_failed_cb
+        with self._write_requests_lock:
+            # Find the read request
+            rreq = self._read_requests.get(id)
+            if rreq is None:
+                return
             logger.debug('READING: We are still interested in request for mem {}'.format(id))
-            rreq = self._read_requests[id]
             if status == 0:
                 if rreq.add_data(addr, payload[5:]):
                     self._read_requests.pop(id, None)
-                    self.mem_read_cb.call(rreq.mem, rreq.addr, rreq.data)
+                    do_call_sucess_cb = True
             else:
                 logger.debug('Status {}: read failed.'.format(status))
                 self._read_requests.pop(id, None)
-                self.mem_read_failed_cb.call(rreq.mem, rreq.addr, rreq.data)
+                do_call_fail_cb = True
+
+        if do_call_sucess_cb:
+            mem_read_cb.call(rreq.mem, rreq.addr, rreq.data)
+        if do_call_fail_cb:
+            mem_read_failed_cb.call(rreq.mem, rreq.addr, rreq.data)
